@@ -1079,20 +1079,36 @@ func unitStep(v ssa.Value) (int64, bool) {
 // ---------------------------------------------------------------------------
 // Loops
 
-// naturalLoop returns the blocks of the natural loop headed by h: blocks
-// dominated by h from which h is reachable (plus h).  Empty if h heads no loop.
+// naturalLoop returns the blocks of the natural loop headed by h: h plus
+// every block that reaches a back edge p→h (h dominates p) without passing
+// through h.  Empty if h has no back edge (h is not a loop header).
 func naturalLoop(h *ssa.BasicBlock) map[*ssa.BasicBlock]bool {
 	out := map[*ssa.BasicBlock]bool{}
-	for _, b := range h.Parent().Blocks {
+	var work []*ssa.BasicBlock
+	for _, p := range h.Preds {
+		if p == h || h.Dominates(p) {
+			if !out[p] {
+				out[p] = true
+				work = append(work, p)
+			}
+		}
+	}
+	if len(work) == 0 {
+		return out
+	}
+	out[h] = true
+	for len(work) > 0 {
+		b := work[len(work)-1]
+		work = work[:len(work)-1]
 		if b == h {
 			continue
 		}
-		if h.Dominates(b) && blockReaches(b, h) {
-			out[b] = true
+		for _, p := range b.Preds {
+			if !out[p] {
+				out[p] = true
+				work = append(work, p)
+			}
 		}
-	}
-	if len(out) > 0 || blockReaches(h, h) {
-		out[h] = true
 	}
 	return out
 }
@@ -1127,6 +1143,139 @@ func loopExitEdges(loop map[*ssa.BasicBlock]bool) []edge {
 		for i, s := range b.Succs {
 			if !loop[s] {
 				out = append(out, edge{b, i})
+			}
+		}
+	}
+	return out
+}
+
+// ---------------------------------------------------------------------------
+// Guards
+
+// guardInfo is one conditional edge that every path from entry to a target must take.
+type guardInfo struct {
+	If   *ssa.If
+	True bool      // the edge taken
+	Cond ssa.Value // condition with negations stripped
+	Pos  bool      // Cond holds (true) / does not hold (false) on the taken edge
+}
+
+// dominatingGuards returns every conditional edge whose removal makes target
+// unreachable from the function entry (start==nil) or from start.
+func dominatingGuards(fn *ssa.Function, start, target ssa.Instruction) []guardInfo {
+	var out []guardInfo
+	for _, i := range ifs(fn) {
+		for idx := 0; idx < 2; idx++ {
+			ed := edge{i.Block(), idx}
+			if i.Block().Succs[0] == i.Block().Succs[1] {
+				continue
+			}
+			if !canReach(fn, start, target, cut{edges: map[edge]bool{ed: true}}) && canReach(fn, start, target, cut{}) {
+				v, flip := stripNot(i.Cond)
+				out = append(out, guardInfo{If: i, True: idx == 0, Cond: v, Pos: (idx == 0) != flip})
+			}
+		}
+	}
+	return out
+}
+
+// firstInstr returns the first instruction of a block.
+func firstInstr(b *ssa.BasicBlock) ssa.Instruction {
+	if len(b.Instrs) == 0 {
+		return nil
+	}
+	return b.Instrs[0]
+}
+
+func lastInstr(b *ssa.BasicBlock) ssa.Instruction {
+	if len(b.Instrs) == 0 {
+		return nil
+	}
+	return b.Instrs[len(b.Instrs)-1]
+}
+
+// loopOf returns the innermost natural loop (header, blocks) containing b, or nil.
+func loopOf(b *ssa.BasicBlock) (*ssa.BasicBlock, map[*ssa.BasicBlock]bool) {
+	var best *ssa.BasicBlock
+	var bestSet map[*ssa.BasicBlock]bool
+	for _, h := range b.Parent().Blocks {
+		set := naturalLoop(h)
+		if len(set) == 0 || !set[b] {
+			continue
+		}
+		if best == nil || len(set) < len(bestSet) {
+			best, bestSet = h, set
+		}
+	}
+	return best, bestSet
+}
+
+// definedOutside: v is defined outside the loop (parameter, constant, global, or instruction in a non-loop block).
+func definedOutside(v ssa.Value, loop map[*ssa.BasicBlock]bool) bool {
+	in, ok := v.(ssa.Instruction)
+	if !ok {
+		return true
+	}
+	return !loop[in.Block()]
+}
+
+// isAtomicCall returns the address operand if in is a call to sync/atomic.* on an address.
+func isAtomicCall(in ssa.Instruction) (ssa.Value, string, bool) {
+	c := callOf(in)
+	if c == nil || c.IsInvoke() {
+		return nil, "", false
+	}
+	n := calleeName(c)
+	if !strings.HasPrefix(n, "sync/atomic.") || len(c.Args) == 0 {
+		return nil, "", false
+	}
+	return c.Args[0], strings.TrimPrefix(n, "sync/atomic."), true
+}
+
+// conjAtoms decomposes a boolean value built with && (lowered by go/ssa to a
+// φ of `false` constants and the right operand) into its conjuncts, each with
+// the polarity under which it must hold.  A value that is not such a φ is its
+// own single atom.
+func conjAtoms(fn *ssa.Function, v ssa.Value, pos bool, depth int) []guardInfo {
+	v, flip := stripNot(v)
+	if flip {
+		pos = !pos
+	}
+	ph, ok := v.(*ssa.Phi)
+	if !ok || !pos || depth > 4 {
+		return []guardInfo{{Cond: v, Pos: pos}}
+	}
+	var out []guardInfo
+	for k, e := range ph.Edges {
+		if c, ok := e.(*ssa.Const); ok {
+			if c.Value != nil && c.Value.String() == "false" {
+				continue // short-circuit edge of &&
+			}
+			return []guardInfo{{Cond: v, Pos: pos}} // a `true` edge: this is an ||, not decomposed
+		}
+		out = append(out, conjAtoms(fn, e, true, depth+1)...)
+		pred := ph.Block().Preds[k]
+		if t := lastInstr(pred); t != nil {
+			for _, g := range dominatingGuards(fn, nil, t) {
+				if !ph.Block().Dominates(g.If.Block()) && g.If.Block() != ph.Block() {
+					out = append(out, conjAtoms(fn, g.Cond, g.Pos, depth+1)...)
+				}
+			}
+		}
+	}
+	return out
+}
+
+// guardAtoms: the dominating guards of target, with && φ conditions expanded into atoms.
+func guardAtoms(fn *ssa.Function, start, target ssa.Instruction) []guardInfo {
+	var out []guardInfo
+	seen := map[string]bool{}
+	for _, g := range dominatingGuards(fn, start, target) {
+		for _, a := range conjAtoms(fn, g.Cond, g.Pos, 0) {
+			k := sprintf("%p/%v", a.Cond, a.Pos)
+			if !seen[k] {
+				seen[k] = true
+				out = append(out, a)
 			}
 		}
 	}
